@@ -272,8 +272,11 @@ impl RustRuleEngine {
 
     /// Activate agenda group
     pub fn activate_agenda_group(&mut self, group: String) {
-        self.workflow_engine.activate_agenda_group(group.clone());
-        self.agenda_manager.set_focus(&group);
+        // Queue the activation and apply it right away. Applying it here *and* leaving it in
+        // the queue made the next sync focus the group a second time, which counts as a new
+        // activation (lock-on-active rules fire again) and overrides any focus set in between.
+        self.workflow_engine.activate_agenda_group(group);
+        self.sync_workflow_agenda_activations();
     }
 
     /// Get the knowledge base
@@ -1280,9 +1283,10 @@ impl RustRuleEngine {
                 if self.config.debug_mode {
                     println!("  🎯 Activating agenda group: {}", group);
                 }
-                // Sync with both workflow engine and agenda manager immediately
+                // Queue the activation in the workflow engine and apply it immediately; it is
+                // consumed here, so the end-of-cycle sync does not focus the group again
                 self.workflow_engine.activate_agenda_group(group.clone());
-                self.agenda_manager.set_focus(group);
+                self.sync_workflow_agenda_activations();
             }
             ActionType::ScheduleRule {
                 rule_name,
